@@ -115,7 +115,10 @@ fn any_counts<const M: usize>() -> (DenseMatrix<u32, U5>, [[u32; 5]; M]) {
     let mut sh = [[0u32; 5]; M];
     for i in 0..M {
         for j in 0..5 {
-            let x = nd::u16_() as u32;
+            // small counts: the float divisions downstream are bit-blasted and the proof
+            // has to equate two copies of the same divider circuit (values pass through
+            // memory, so CBMC does not share them); with wide inputs no verdict in 60 min
+            let x = nd::u8_in(0, 7) as u32;
             d[i][j] = x;
             sh[i][j] = x;
         }
@@ -124,14 +127,14 @@ fn any_counts<const M: usize>() -> (DenseMatrix<u32, U5>, [[u32; 5]; M]) {
 }
 
 fn any_pseudo() -> [f32; 5] {
-    core::array::from_fn(|_| (nd::u8_in(0, 128) as f32) / 16.0)
+    core::array::from_fn(|_| (nd::u8_in(0, 4) as f32) / 4.0)
 }
 
-/// background on the lattice k/64 that `Background::new` accepts
+/// background on the lattice k/8 that `Background::new` accepts
 fn any_background() -> (Background<Dna>, [f32; 5]) {
-    let k: [u8; 5] = core::array::from_fn(|_| nd::u8_in(0, 64));
-    nd::assume(k[0] as u32 + k[1] as u32 + k[2] as u32 + k[3] as u32 + k[4] as u32 == 64);
-    let f: [f32; 5] = core::array::from_fn(|i| (k[i] as f32) / 64.0);
+    let k: [u8; 5] = core::array::from_fn(|_| nd::u8_in(0, 8));
+    nd::assume(k[0] as u32 + k[1] as u32 + k[2] as u32 + k[3] as u32 + k[4] as u32 == 8);
+    let f: [f32; 5] = core::array::from_fn(|i| (k[i] as f32) / 8.0);
     let bg = Background::<Dna>::new(GenericArray::from(f)).expect("valid background rejected");
     (bg, f)
 }
@@ -158,7 +161,7 @@ fn freq_body<const M: usize>() {
         assert!((sum - 1.0).abs() <= 1e-5, "frequency row does not sum to one");
     }
     // scalar pseudocount: applied to every symbol but the wildcard
-    let q = (nd::u8_in(0, 64) as f32) / 16.0;
+    let q = (nd::u8_in(0, 4) as f32) / 4.0;
     let fq = cm.to_freq(q);
     let terms: [f32; 5] = core::array::from_fn(|j| c[0][j] as f32 + if j < 4 { q } else { 0.0 });
     let total: f32 = terms.iter().sum();
@@ -203,7 +206,7 @@ fn freq_validation_body<const M: usize>() {
 pub fn freq_from_counts<const M: usize>() -> (FrequencyMatrix<Dna>, [[f32; 5]; M]) {
     let (d, _) = any_counts::<M>();
     let cm = CountMatrix::<Dna>::new(d).unwrap();
-    let q = (nd::u8_in(0, 64) as f32) / 16.0;
+    let q = (nd::u8_in(0, 3) as f32) / 4.0;
     let fm = cm.to_freq(q);
     let mut f = [[0f32; 5]; M];
     for i in 0..M {
@@ -322,8 +325,8 @@ fn background_new_body() {
 }
 
 fn background_counts_body() {
-    let c: [usize; 5] = core::array::from_fn(|_| nd::u16_() as usize);
-    let total = c[0] + c[1] + c[2] + c[3] + c[4];
+    let c: [usize; 5] = core::array::from_fn(|_| nd::u8_in(0, 7) as usize);
+    let total: usize = c.iter().sum();
     let r = Background::<Dna>::from_counts(&GenericArray::from(c));
     assert!(r.is_ok() == (total > 0), "from_counts must reject exactly the all-zero counts");
     if let Ok(bg) = r {
@@ -359,7 +362,9 @@ harness!(none, 8, c09_count_dna_n3_w2, count_body3::<Dna, 2>());
 harness!(none, 24, c09_count_protein_n2_w2, count_body2::<Protein, 2>());
 //@ C09 quick 900 CountMatrix::from_sequences rejects unequal lengths, accepts the empty set
 harness!(none, 8, c09_count_unequal, unequal_body());
-//@ C09 quick 3600 to_freq: 2 rows, counts < 2^16, pseudocount vector k/16 and scalar pseudocount
+//@ C09 quick 3600 to_freq: 1 row, counts <= 7, pseudocount vector k/4 (k <= 4) and scalar pseudocount
+harness!(none, 8, c09_freq_m1, freq_body::<1>());
+//@ C09 thorough 10800 to_freq: 2 rows
 harness!(none, 8, c09_freq_m2, freq_body::<2>());
 //@ C09 quick 1800 FrequencyMatrix::new accepts exactly the rows within 0.01 of one (lattice k/64), 2 rows
 harness!(none, 8, c09_freq_validation_m2, freq_validation_body::<2>());
